@@ -9,6 +9,8 @@ reg(Prop(
          'one box x every lattice point (contains_point, size/pos/max for three ways of building the box, corner_points); '
          'pairs<T,N> = one row (box a) x every box b (intersection incl. null box, intersects, contains(a,b), '
          'extend_bounding_box(a,b); all 784 / 614656 ordered pairs in both tiers); '
+         'inverted<T,N> = every box with max < pos in some coordinate (21 / 1617 boxes): contains_point false on the whole lattice, intersection '
+         'with every 5th regular box has no point, an inverted outer box contains no non-empty box; '
          'resize<T,N> = one box x every vector in [-3,3]^N ([0,3]^N unsigned) for shrink/stretch_absolute. N=3: seeded random '
          'boxes with corners in [-3,3] on the lattice [-6,6]^3 (random3; 12000 / 800000 (a,b,v) triples per type in quick / '
          'thorough) and boxes with coordinates up to 10^6 judged on the 512 face-adjacent candidate points and the extreme '
